@@ -10,7 +10,12 @@ def lib_module(config="ndebug", witness=("wrap",)):
 
 
 def configs_for(tier):
-    return ["ndebug"] if tier == "quick" else ["ndebug", "asserts", "native"]
+    """build configurations analysed at this tier; sets report.CURRENT_CONFIG while each one is being analysed"""
+    from . import report
+    for cfg in (["ndebug"] if tier == "quick" else ["ndebug", "asserts", "native"]):
+        report.CURRENT_CONFIG = cfg
+        yield cfg
+    report.CURRENT_CONFIG = None
 
 
 def need_fn(mod, name):
